@@ -47,13 +47,13 @@ Conf_Begin ==
 NoVotesNow == VotesAt(st.updVotes, H) = <<>> /\ VotesAt(st.commVotes, H) = <<>>
 NoLockedOwner == \A p \in DOMAIN st.cands : \A x \in Range(st.cands[p].stakes) : LockOf(st, x.o) <= H
 EndCovered == /\ IsKind("EndBlock") /\ NoPanic /\ "st" \in DOMAIN ev' /\ ~hist.imported /\ ~hist.synced
-              /\ AllStakesBase(st) /\ SmallCands(st) /\ NoVotesNow /\ st.orders = <<>>
+              /\ AllStakesBase(st) /\ SmallCands(st) /\ NoVotesNow
               /\ (IsPayout => NoLockedOwner)
 KeyChanged == \E p \in DOMAIN st.cands : \E q \in DOMAIN disk.cands : disk.cands[q].id = st.cands[p].id /\ q # p
-PredEnd == EndS(st, H, hist.present, Cfg, hist.unit, hist.cap, KeyChanged)
+PredEnd == EndS(st, H, hist.present, Cfg, hist.unit, hist.cap, KeyChanged, disk.orders)
 Conf_End ==
-   Clause("DRIFT", "StakingModelPredictsEndBlock", EndCovered, BlockDiff(PredEnd, st', StakeFields \cup {"emission"}) = {},
-          [at |-> Where, differs |-> BlockDiff(PredEnd, st', StakeFields \cup {"emission"}),
+   Clause("DRIFT", "StakingModelPredictsEndBlock", EndCovered, BlockDiff(PredEnd, st', StakeFields \cup {"emission", "orders"}) = {},
+          [at |-> Where, differs |-> BlockDiff(PredEnd, st', StakeFields \cup {"emission", "orders"}),
            cands |-> [p \in {q \in DOMAIN PredEnd.cands \cap DOMAIN st'.cands : ~CandEq(PredEnd.cands[q], st'.cands[q])} |-> <<PredEnd.cands[p], st'.cands[p]>>]])
 CommitCovered == IsKind("Commit") /\ NoPanic /\ "st" \in DOMAIN ev' /\ ~hist.imported /\ ~hist.synced /\ ~hist.crashed
 Conf_Commit ==
